@@ -3,5 +3,7 @@
 # usage: tools_benign_all.sh [budget_s]
 ROOT=$(dirname $(realpath $0))
 for d in $ROOT/benign/*/; do
-  $ROOT/tools_benign.sh none $(basename $d) ${1:-15} 2>&1 | grep " rc=" 
+  $ROOT/tools_benign.sh none $(basename $d) ${1:-15} 2>&1 | grep " rc=" | while read line; do
+    if echo "$line" | grep -q "rc=0"; then echo "$line"; elif test -f $d/verdict.txt; then echo "$line   [alarm expected: see $(basename $d)/verdict.txt]"; else echo "$line   <-- UNEXPECTED"; fi
+  done
 done
